@@ -1,6 +1,6 @@
 """C08 — JSONPath evaluation returns exactly the items the path denotes."""
 from .. import gen
-from . import common
+from . import common, longpaths
 
 SPEC_THEOREM = ('Props/C08: the evaluator never panics on parser-producible paths; selection = PathSem semantics on the decoded tree; '
                 'C08_bytes_*: the offset-faithful selector (SelWalk.v: byte positions, no decoding) on enc v = the tree evaluator on normalise v')
@@ -33,6 +33,20 @@ def generate(ctx):
             kinds = [s[0] for s in p.split(';')]
             for a, b in zip(kinds, kinds[1:]):
                 ctx.count('step_pairs', a + b)
+    # long chains of && / ||, deep parentheses, nested exists(), filters inside filters: the evaluators of the model recurse on
+    # the structure of the expression (no fuel); the crate must agree however long the expression is
+    ldocs = [v for v in ds if len(gen.enc(v)) <= 200][:40]
+    for lab, p, is_pred in longpaths.paths(r):
+        for v in r.sample(ldocs, 3) + [('u', 5), ('a', [('u', 1), ('u', 2), ('u', 3)])]:
+            e = gen.hexarg(gen.enc(v))
+            ctx.add('select %s %s %s' % (e, p, r.choice(['all', 'first', 'array', 'mixed'])), meta=('sel', v, p))
+            ctx.add(('sel_predicate_match %s %s' if is_pred else 'sel_exists %s %s') % (e, p))
+            ctx.add('%s %s %s' % (r.choice(['get_by_path', 'get_by_path_first', 'get_by_path_array', 'path_exists', 'path_match']), e, p))
+            ctx.count('long_paths', lab.rstrip('0123456789'))
+        # and on a corrupt buffer (the walker model is about any buffer)
+        v = r.choice(ldocs)
+        b = gen.enc(v)
+        ctx.add('select %s %s all' % (gen.hexarg(b[:r.randrange(len(b))]), p), kind='malformed')
     # the selector on buffers that are NOT valid encodings (prefixes, one byte changed), with paths derived from the
     # original document: C08 says nothing about them, but the offset-faithful model (SelWalk.v) does, including where an
     # index expression or an unreachable!() panics; this stream only feeds the correspondence tie, so that the model the
